@@ -3,12 +3,14 @@
 (* C12 - ill-formed pipelines and inputs are rejected before any user code *)
 (* runs, and without altering a run folder opened with cleanup=False.      *)
 (*                                                                         *)
-(* A REQUEST is  r = [desc, inputs, cfg]  with                             *)
+(* A REQUEST is  r = [desc, inputs, cfg, prev]  with                       *)
 (*   desc    a pipeline description (PipelineStatic / MapDenote),          *)
 (*   inputs  pairs name -> value (arrays are nested "#arr" terms),         *)
 (*   cfg     [storage : STRING, parallel, executor, cleanup, folder :      *)
 (*            BOOLEAN]  (executor = "an Executor object is passed",        *)
-(*            folder = "a run folder is given").                           *)
+(*            folder = "a run folder is given"),                           *)
+(*   prev    [desc, inputs]: the (valid, completed) run whose results the  *)
+(*            run folder holds when the request arrives.                   *)
 (* Valid(r) is the conjunction of the NAMED clauses below, in the order in *)
 (* which the code can evaluate them (PipeFunc/Pipeline construction, then  *)
 (* pipefunc/map/_prepare.py prepare_run, then _run_info.py RunInfo.create).*)
@@ -143,6 +145,12 @@ Step(name, ok, next, newDisk) ==
     /\ IF ok THEN pc' = next /\ disk' = newDisk ELSE pc' = "rejected" /\ disk' = disk
     /\ UNCHANGED <<req, calls>>
 
+MapSpecsOf(dd)  == [i \in FIdx(dd) |-> <<dd.funcs[i].has_ms, dd.funcs[i].ms, dd.funcs[i].internal>>]
+DefaultsOf(dd)  == {<<p, DefaultOf(dd, p)>> : p \in {q \in AllParams(dd) : HasDefault(dd, q)}}
+SameRun(r)      == /\ SeqToSet(r.inputs) = SeqToSet(r.prev.inputs)
+                   /\ MapSpecsOf(r.desc) = MapSpecsOf(r.prev.desc)
+                   /\ DefaultsOf(r.desc) = DefaultsOf(r.prev.desc)
+Continues(r)    == r.cfg.cleanup \/ ~r.cfg.folder \/ SameRun(r)      \* not refused for being a different run
 MapsSomething(dd) == \E i \in FIdx(dd) : HasMapInputs(dd.funcs[i])
 (* where the implementation looks at the storage name when the check is late: only when a run folder is given (without  *)
 (* one _maybe_run_folder resolves the class first) and only when some output needs a storage array                     *)
@@ -158,8 +166,10 @@ ValidateFixed  == Step("ValidateFixed", TRUE, "CheckStorage", disk)             
 CheckStorage   == Step("CheckStorage", (StorageCheck = "early" \/ ~req.cfg.folder) => KnownStorage(req.cfg),
                        IF ~req.cfg.folder THEN "CheckShapes" ELSE IF req.cfg.cleanup THEN "Cleanup" ELSE "CompareToPrevious", disk)
 Cleanup        == Step("Cleanup", TRUE, "CheckShapes", AbsentDisk)
-(* the new shapes must be computable and equal to the stored ones (here: the previous run was the valid base request) *)
-CompareToPrevious == Step("CompareToPrevious", ShapeFault(req.desc, req.inputs, 1) = "none", "CheckShapes", disk)
+(* cleanup=False continues the previous run: the new shapes must be computable and MapSpecs, shapes, inputs and        *)
+(* defaults must be those of the run in the folder (_compare_to_previous_run_info); a different request is refused     *)
+(* here - that is not a clause of Valid, but it is a rejection and has to be pure as well                              *)
+CompareToPrevious == Step("CompareToPrevious", ShapeFault(req.desc, req.inputs, 1) = "none" /\ SameRun(req), "CheckShapes", disk)
 CheckShapes    == Step("CheckShapes", ShapeFault(req.desc, req.inputs, 1) = "none",
                        IF req.cfg.folder THEN "DumpRunInfo" ELSE "InitStore", disk)
 DumpRunInfo    == Step("DumpRunInfo", TRUE, "DumpInputs", [disk EXCEPT !.run_info = "new"])
@@ -178,5 +188,5 @@ PrepareNext == \/ Construct \/ CheckExecutorParallel \/ Subpipeline \/ ValidateI
 RejectIsPure  == pc = "rejected" => (calls = 0 /\ (~req.cfg.cleanup => disk = PrevDisk))
 NoCodeBeforeAccept == calls > 0 => pc = "returned"
 OnlyReject    == ~Valid(req) => pc # "returned" /\ pc # "Run"      \* an invalid request never reaches user code
-ValidAccepted == Valid(req) => pc # "rejected"
+ValidAccepted == (Valid(req) /\ Continues(req)) => pc # "rejected"
 =============================================================================
